@@ -349,6 +349,21 @@ def run(report, p):
                 continue
             extra.append((tt, l))
         r8.check(not extra, creader, c, f"the chain reader keeps a parsed <hashlist> entry only under the additional condition {extra}: dropped entries are never verified", construct=f"chain entry kept under {extra}")
+    # a container is opened for every <hashlist> start tag (and only the open-container test may prevent it)
+    from .common import atomic_deps
+
+    gens_cls = "ascmhl.chain.MHLChainGeneration"
+    opens = [n for n in walk_no_nested(creader.node) if isinstance(n, ast.Assign) and isinstance(n.value, ast.Call) and p.resolve_name_expr(n.value.func, creader.module) == gens_cls]
+    if not opens:
+        raise AnalysisError("chain reader: creation of the per-entry container not found")
+    for o_ in opens:
+        r8.instance(creader, o_, norm(o_)[:70])
+        atoms = set()
+        for t, l in gr.control_deps(gr.node_for(o_), through_loops=False):
+            if t.kind == "test":
+                atoms |= set(atomic_deps(t.ast, l))
+        okc = ("tag == 'hashlist'", "T") in atoms and all(a in (("tag == 'hashlist'", "T"), ("event == 'start'", "T"), ("current_object", "F"), ("current_object is None", "T"), ("event == 'end'", "F")) for a in atoms)
+        r8.check(okc, creader, o_, f"the chain reader opens an entry container under {sorted(atoms)} instead of 'start of a <hashlist> element while none is open': entries are merged or skipped and never verified", construct=f"entry container opened under {sorted(atoms)}")
     nmod = 0
     for fq, f in p.funcs.items():
         if f.module.name in unshipped:
